@@ -1,0 +1,31 @@
+//! Verification hooks (cargo feature `verif`, off by default): a settable clock and a scripted AEAD `open`,
+//! so that a solver model (receiver clock, outcome and plaintext of each authenticated decryption) can be
+//! replayed against the real decoders. Thread-local; nothing here is compiled without the feature.
+use std::cell::Cell;
+use std::cell::RefCell;
+use std::collections::VecDeque;
+
+thread_local! {
+    static CLOCK: Cell<Option<u64>> = const { Cell::new(None) };
+    static OPENS: RefCell<Option<VecDeque<Option<Vec<u8>>>>> = const { RefCell::new(None) };
+}
+
+/// Fix (or release, with `None`) the value returned by `aead_2022::now()` and `vmess::now()` on this thread.
+pub fn set_clock(now: Option<u64>) {
+    CLOCK.with(|c| c.set(now));
+}
+
+pub fn clock() -> Option<u64> {
+    CLOCK.with(|c| c.get())
+}
+
+/// Script the next `CipherMethod::decrypt_*` calls on this thread: `Some(pt)` succeeds with plaintext `pt`,
+/// `None` fails authentication. `script_opens(None)` restores the real cipher.
+pub fn script_opens(script: Option<Vec<Option<Vec<u8>>>>) {
+    OPENS.with(|o| *o.borrow_mut() = script.map(VecDeque::from));
+}
+
+/// `None`: not scripted (use the real cipher); `Some(x)`: the scripted outcome (an exhausted script fails).
+pub(crate) fn next_open() -> Option<Option<Vec<u8>>> {
+    OPENS.with(|o| o.borrow_mut().as_mut().map(|q| q.pop_front().flatten()))
+}
